@@ -44,9 +44,54 @@ def run_config(ctx, config):
             ctx.fail("override", "%s/%s" % (config, tk), "impl HasRefUnit for %s overrides %s" % (tk, extra), imp["span"])
 
 
+def decimal_accuracy(ctx, config):
+    """Decimal back-end: for every reference-unit type, ordered unit pair and
+    operator the evaluated term, with the amount-free sub-trees folded as fpdec
+    computes them, must carry the exact coefficients (a: 1, b: s_b/s_a for
+    + and -; s_a/s_b for /) to 1e-18 relative, absolute rounding <= 2e-18."""
+    from fractions import Fraction
+    from . import accuracy as A
+    w = ws.load(config)
+    U = w.U
+    n = 0
+    for fn in ("add", "sub", "div"):
+        outs, b, _ = G.summarize(U, G.HRU + fn, G.INL_CONV)
+        p1 = S.P(1, b["params"][1]["pat"]["name"])
+        ua, ub = T.canon(S.unit(a_)), T.canon(S.unit(p1))
+        sa, sb = T.canon(S.scale(ua)), T.canon(S.scale(ub))
+        amounts = [T.canon(S.amount(a_)), T.canon(S.amount(p1))]
+        for q in w.qtypes:
+            if q.kind != "ref" or "scale" not in q.tables:
+                continue
+            rows = [(v, q.tables["scale"][v][1]) for v in q.variants_const]
+            for (u, su) in rows:
+                for (v, sv) in rows:
+                    if u == v:
+                        continue
+                    inst = "%s/%s/%s/%s,%s" % (config, fn, q.path, u, v)
+                    try:
+                        k, t = A.select(outs, {sa: su, sb: sv}, {ua: u, ub: v})
+                        if k != "val":
+                            raise A.Unsupported("diverges for a reference-unit type")
+                        if t[0] == "app" and t[1] == "Quantity::new":
+                            t = t[3][0]
+                        rel, err = A.worst(A.analyse_poly(t, {sa: su, sb: sv}, amounts))
+                    except A.Unsupported as x:
+                        ctx.fail("decimal-accuracy", inst, "cannot analyse the term: %s" % x, b["span"])
+                        continue
+                    n += 1
+                    ctx.ob("decimal-accuracy", inst, rel <= A.COEF_TOL and (err is None or err <= 2 * A.ABS_TOL),
+                           "%s of %s with units (%s, %s): the evaluated term %s carries a coefficient off by %.3g relative (allowed %.1g; absolute rounding %s) "
+                           "— far beyond the rounding of the amount type" % (fn, q.path, u, v, T.show(t)[:160], float(rel), float(A.COEF_TOL),
+                                                                             "n/a" if err is None else "%.3g" % float(err)),
+                           b["span"], nontrivial=False)
+    ctx.floor("%s: (operator, type, ordered unit pair) cases with analysed decimal accuracy" % config, n, 3000)
+
+
 def run(ctx):
     for config in ("f64-all", "dec-all"):
         run_config(ctx, config)
+    decimal_accuracy(ctx, "dec-all")
     ctx.rule_text = "3 generic value-flow obligations per configuration (2 guard cases each) + one forwarder and one output-type obligation per reference-unit type and operator"
     ctx.trusted = ["rustc THIR construction and trait resolution", "IEEE-754 / fpdec arithmetic per node"]
     ctx.assumptions = ["size of the rounding error not decided (mixed-unit path: 3 operations; same-unit path: the bare operation)"]
